@@ -1686,6 +1686,12 @@ def program_strategy(min_stmts=1, max_stmts=6, max_leaves=2, family_weights=None
                 fam = D_.weighted([(f, fw[f]) for f in sorted(fams)])
                 name = D_.choice(fams[fam])
             s = OPS[name].gen(D_, vals)
+            if stmts and stmts[-1]["op"] == "transpose_hi" and vals[-1].ndim >= 4 and vals[-1].size > 0 and "getitem" in ok_ops and D_.chance(1, 2):
+                # an integer index directly on a rank >= 4 transpose: the axes that survive must keep the
+                # permutation the transpose gave them (a 3-cycle is not its own inverse)
+                ax = D_.int(0, vals[-1].ndim - 1)
+                idx = tuple([slice(None)] * ax + [D_.int(0, vals[-1].shape[ax] - 1)])
+                s = {"op": "getitem", "args": [len(vals) - 1], "index": gidx.enc(idx)}
             if s is None:
                 discarded += 1
                 continue
